@@ -10,6 +10,7 @@ EXPLANATION = (
     "(R-C17-skipped) in the drop-elaborated MIR of Router::consume the queue of requests set aside with ConsumeStatus::SkipRequest is never dropped on a normal path (it is handed back to the tracker on every exit), "
     "and the polled queue is dropped only behind pop_front()==None; "
     "(R-C17-index) every write of SharedGroup.current_client_index is 0, `% clients.len()` or gen_range over the half-open 0..clients.len(), so current_client() names a member while the group is non-empty; "
+    "(R-C17-monotone) the group cursor is written only by the forwarder with the continuation of its own read (it never moves back); "
     "NOT decided: at-most-once / completeness over join/leave histories, fairness of the strategies.")
 ASSUMPTIONS = ["rustc MIR construction is correct"]
 TECHNIQUE = "static analysis: edge-sensitive must-pass rules on the forwarder's MIR CFG, who-may-write"
@@ -23,6 +24,7 @@ def run(ctx):
     ctx.guarded("R-C17-membership", membership, ctx, prog)
     ctx.guarded("R-C17-skipped", skipped, ctx, prog)
     ctx.guarded("R-C17-index", index_in_range, ctx, prog)
+    ctx.guarded("R-C17-monotone", cursor_writers, ctx, prog)
 
 
 def skipped(ctx, prog):
@@ -249,3 +251,29 @@ def index_in_range(ctx, prog):
         ctx.ok(rule, cc.id, "current_client() = clients.get(current_client_index)")
     else:
         ctx.violation(rule, cc.id, "current_client lookup", "current_client() no longer looks up clients[current_client_index]", site=cc.fn_loc())
+
+
+def cursor_writers(ctx, prog):
+    """'never twice': the group's read position only moves forward.  It is written by the forwarder (with the
+    continuation of its own read) and initialised by SharedGroup::new; nobody else may set it — in particular not
+    back to an older offset."""
+    rule = "R-C17-monotone"
+    n = 0
+    for body, bi, st in field_writes(prog, "cursor"):
+        if body.is_cleanup(bi) or "SharedGroup" not in body.local_ty(st["lhs"]["l"]):
+            continue
+        n += 1
+        if body.id == "router::routing::forward_device_data":
+            src = flatten_src(provenance(body, st["rv"]["a"], through_calls=[r"ops::Try>::branch$"])) if st["rv"]["k"] == "use" else []
+            # the continuation itself, or request.cursor (which R-C01-advance shows was just set from it)
+            if src and all((x.kind == "call" and x.path.endswith("DataLog::native_readv")) or (x.kind == "param" and x.l == 1 and x.fields[-1:] == ["cursor"]) for x in src):
+                ctx.ok(rule, body.id, "group cursor = continuation of the forwarder's own read", site=body.loc(st.get("sp")))
+            else:
+                ctx.violation(rule, body.id, "group cursor source", "the forwarder writes the group cursor from something other than the continuation of its read", site=body.loc(st.get("sp")))
+        elif body.id.endswith("SharedGroup::new"):
+            ctx.ok(rule, body.id, "initial cursor", trivial=True)
+        else:
+            ctx.violation(rule, body.id, "group cursor rewound",
+                          "%s sets the shared group's cursor (to a departing member's oldest unacknowledged offset): everything forwarded to — and acknowledged by — the other members since that offset is read and forwarded again" % body.id,
+                          site=body.loc(st.get("sp")))
+    ctx.floor(rule, "writes of SharedGroup.cursor", n, 2)
